@@ -231,6 +231,53 @@ def run_c08(rep, tier, seed):
                         'the per-key search and the marker test do not use it']
     return results
 
+# ------------------------------------------------------------------ C02 under group commit
+def one_syncgroup(args):
+    exe, base, idx, sc_seed, sched_seed = args
+    rng = vlib.Rng(sc_seed)
+    sc = k8lib.gen_scenario(rng, 'writers', nthreads=rng.range(3, 8), nops=rng.range(12, 26))
+    # many sync writers queued behind non-sync leaders and vice versa
+    for t, ops in enumerate(sc.threads):
+        for i, o in enumerate(ops):
+            if o.split(' ')[0] in ('put', 'del', 'batch'):
+                o = o[:-5] if o.endswith(' sync') else o
+                if rng.chance(1, 3): o += ' sync'
+                ops[i] = o
+    sched = k8lib.gen_schedule(vlib.Rng(sched_seed))
+    run = k8lib.run_k8(exe, base, 5000 + idx, sc, sched)
+    stats = {}
+    problems = k8lib.check_liveness(run, sc)
+    if not problems:
+        problems = k8lib.check_group_sync(run, sc, stats)
+    res = {'sc_seed': sc_seed, 'sched': sched, 'problems': problems, 'stats': stats, 'done': run.done, 'ngroups': len(run.groups)}
+    if problems:
+        res['scenario'] = sc.to_json(); res['history'] = history_lines(run); res['groups'] = run.groups[:400]
+    return res
+
+def run_sync_groups(rep, tier, seed):
+    """pthread build: a sync=1 write that the group-commit leader merges into its group must be fsynced with it."""
+    out = vlib.scratch_dir()
+    exe = k8lib.build_k8(out, 'pthread')
+    n = 60 if tier == 'quick' else 1500
+    rng = vlib.Rng(seed ^ 0x5C02)
+    jobs = [(exe, out, i, rng.next(), rng.next()) for i in range(n)]
+    with ThreadPoolExecutor(vlib.NCPU) as ex:
+        results = list(ex.map(one_syncgroup, jobs))
+    tot = {}; reported = 0
+    for r in results:
+        rep.evaluated(1); _merge(tot, r['stats'])
+        if r['stats'].get('sync_groups_multi', 0) >= 1: rep.nontrivial(('syncgroup', r['sc_seed'], r['sched']['seed']))
+        for p in r['problems'][:1]:
+            if p['kind'] in LIVENESS_KINDS: continue        # C09's business
+            if reported < 3:
+                reported += 1
+                rep.violation({'kind': 'K8-' + p['kind'], 'problem': p, 'scenario': r['scenario'], 'schedule': r['sched'],
+                               'scenario_seed': r['sc_seed'], 'history': r['history'], 'groups': r.get('groups')})
+            else:
+                rep.violations.append(None)
+    rep.cov['k8_sync_groups'] = dict(tot, runs=len(results))
+    return results
+
 # ------------------------------------------------------------------ C09
 C09_PROFILES = ['writers', 'writers', 'stall', 'stall', 'manual', 'manual', 'backup', 'closebg', 'closebg', 'c08', 'readers']
 
